@@ -9,6 +9,8 @@ import (
 	"fmt"
 	"reflect"
 	"testing"
+
+	"github.com/hashicorp/go-hclog"
 )
 
 func noPanic(t *testing.T, name string, f func()) {
@@ -137,5 +139,62 @@ func TestVerifNoPanicOnceStruct(t *testing.T) {
 				t.Errorf("FAILING-INPUT run-once converter body ran %d times", calls)
 			}
 		})
+	}
+}
+
+// cycleLogger turns unbounded recursion of the resolver into a recoverable panic.
+type cycleLogger struct {
+	hclog.Logger
+	n     *int
+	limit int
+}
+
+func (l cycleLogger) Trace(msg string, args ...interface{}) {
+	if msg == "reachTarget" {
+		*l.n++
+		if *l.n > l.limit {
+			panic(fmt.Sprintf("reachTarget entered %d times: unbounded recursion", *l.n))
+		}
+	}
+}
+
+type cyA struct{ S string }
+type cyB struct{ S string }
+type cyC struct{ S string }
+
+// TestVerifNoPanicCycles: converter cycles, including mutually recursive
+// multi-input converters, must make Call return (an error), not recurse forever.
+func TestVerifNoPanicCycles(t *testing.T) {
+	type sc struct {
+		name  string
+		convs []interface{}
+		args  []Arg
+	}
+	scs := []sc{
+		{"two one-input converters in a cycle, nothing supplied", []interface{}{func(b cyB) cyA { return cyA{} }, func(a cyA) cyB { return cyB{} }}, nil},
+		{"mutual two-input converters, the shared second input supplied", []interface{}{func(b cyB, n int) cyA { return cyA{} }, func(a cyA, n int) cyB { return cyB{} }}, []Arg{Typed(7)}},
+		{"mutual two-input converters, nothing supplied", []interface{}{func(b cyB, n int) cyA { return cyA{} }, func(a cyA, n int) cyB { return cyB{} }}, nil},
+		{"three-cycle with a shared input", []interface{}{func(b cyB, n int) cyA { return cyA{} }, func(c cyC, n int) cyB { return cyB{} }, func(a cyA, n int) cyC { return cyC{} }}, []Arg{Typed(7)}},
+		{"self-feeding two-input converter", []interface{}{func(a cyA, n int) cyA { return a }}, []Arg{Typed(7)}},
+	}
+	for _, s := range scs {
+		func() {
+			n := 0
+			defer func() {
+				if r := recover(); r != nil {
+					t.Errorf("FAILING-INPUT cycles %s: %v", s.name, r)
+				}
+			}()
+			target := MustFunc(NewFunc(func(a cyA) string { return a.S }))
+			opts := []Arg{Logger(cycleLogger{Logger: hclog.NewNullLogger(), n: &n, limit: 400})}
+			opts = append(opts, s.args...)
+			for _, c := range s.convs {
+				opts = append(opts, Converter(c))
+			}
+			r := target.Call(opts...)
+			if r.Err() == nil {
+				t.Errorf("FAILING-INPUT cycles %s: call succeeded although A cannot be produced", s.name)
+			}
+		}()
 	}
 }
